@@ -33,10 +33,10 @@ cd "$here"
 [ $ok = 1 ] && echo "CONFIRMED" || echo "NOT CONFIRMED"
 # --- run the checks against /repo with the change applied
 if [ -n "$(git -C /repo status --porcelain)" ]; then echo "/repo not clean; not running checks"; exit 2; fi
-restore() { git -C /repo checkout -- . ; cleanup; }
+restore() { git -C /repo checkout -- . ; git -C /repo clean -fdq ; cleanup; }
 trap restore EXIT
 git -C /repo apply "$src/patch.diff" || exit 2
 "$here/bin/chfcheck" -property "$props" -tier quick -evidence-dir none 2>&1 | grep -v 'violations=0' | sed 's/^/  check: /' | cut -c1-500 | head -80
 echo "chfcheck exit=${PIPESTATUS[0]}"
-git -C /repo checkout -- .
+git -C /repo checkout -- . ; git -C /repo clean -fdq
 [ -z "$(git -C /repo status --porcelain)" ] && echo "/repo restored"
